@@ -639,7 +639,10 @@ impl Disk {
                 }
                 return Ok(fimg);
             }
-            _ => panic!("cannot read file of this type")
+            _ => {
+                error!("cannot read file of this storage type");
+                return Err(Box::new(Error::FileTypeMismatch));
+            }
         }
     }
     /// Verify that the new name does not already exist
